@@ -2,12 +2,12 @@
 
 Carriers: volume.py:get_volume (level names, range assert, dispatch), the closure _get_volume_frustum_cone.<locals>.leave
 (volume' = volume + the node's inclusion-exclusion share, for symbolic accuracy 1..9 and 0..3 children), and
-VolSphereFrustumConeIntersection._get_volume (modular; verified where the frustum does not taper away from the sphere).
+VolSphereFrustumConeIntersection._get_volume (modular; both taper directions, on top of C13's contract of the closed form),
+_get_volume_frustum_cone (the summation over the tree, traverse client rule).
 lemmas(): the union lemma over C13's antiderivative forms.  Rests on C13 (DEPENDS): its carriers are re-verified here.
 
-ASSUMED (listed in evidence.trusted_base): the taper half of the sphere/frustum intersection (used by the general-radii
-variants of `leave` at levels >= 3; the equal-radii variants do not use it), the Monte-Carlo volume of generic SDF objects
-(levels >= 5 with >= 2 children), the analytic worker as seen from get_volume (empty contract), the sdflit handle model.
+ASSUMED (listed in evidence.trusted_base): the Monte-Carlo volume of generic SDF objects (levels >= 5 with >= 2 children) and the
+Monte-Carlo-only worker of level 10 (sampling), the sdflit handle model.
 """
 import z3
 
@@ -107,25 +107,9 @@ def child_sphere(S, k):
 
 
 SFI_KEY = f"{VO}:VolSphereFrustumConeIntersection._get_volume"
-SFI_ASSUMED = "assumed-taper-half:" + SFI_KEY  # registry slot of the ASSUMED contract (not found by call-site lookup)
-
-
-class _Scoped(dict):
-    """registry view used while ONE carrier variant is verified: `key` resolves to the given contract instead"""
-
-    def __init__(self, base, key, contract):
-        super().__init__(base)
-        self[key] = contract
-
 
 def leave_setup(nchildren, equal_radii=False):
     def setup(S):
-        eng = S.eng
-        base = getattr(eng, "_c14_base_registry", None) or eng.registry
-        eng._c14_base_registry = base
-        # general radii: one end of every frustum tapers away from its sphere; that half of the sphere/frustum intersection
-        # is only ASSUMED (see register).  equal radii: nothing tapers, the verified contract is used.
-        eng.registry = base if equal_radii else _Scoped(base, SFI_KEY, base[SFI_ASSUMED])
         t = sym_tree(S, "t")
         n = node_obj(S, t)
         ch = PList([child_sphere(S, k) for k in range(nchildren)])
@@ -247,22 +231,15 @@ def sfi_setup(end, taper):
     return setup
 
 
-def _sfi_pre(widening_only):
-    def pre(E, v, o):
-        """the sphere is centred on one end of the frustum with that end's radius (exactly), positive radii, distinct end centres
-        [verified contract only: and the frustum does not taper away from the sphere's end]"""
-        s, f = v["self"].fields["obj1"], v["self"].fields["obj2"]
-        cs, rs = sphere_geom(s)
-        c1, c2 = [R(x) for x in f.fields["c1"].items], [R(x) for x in f.fields["c2"].items]
-        r1, r2 = R(f.fields["r1"]), R(f.fields["r2"])
-        at1 = z3.And(rs == r1, *[a == b for a, b in zip(cs, c1)])
-        at2 = z3.And(rs == r2, *[a == b for a, b in zip(cs, c2)])
-        cl = [z3.Or(at1, at2), r1 > 0, r2 > 0, d2(c1, c2) > 0]
-        if widening_only:
-            cl.append(r1 + r2 - rs >= rs)
-        return z3.And(*cl)
-
-    return pre
+def sfi_pre(E, v, o):
+    """the sphere is centred on one end of the frustum with that end's radius (exactly), positive radii, distinct end centres"""
+    s, f = v["self"].fields["obj1"], v["self"].fields["obj2"]
+    cs, rs = sphere_geom(s)
+    c1, c2 = [R(x) for x in f.fields["c1"].items], [R(x) for x in f.fields["c2"].items]
+    r1, r2 = R(f.fields["r1"]), R(f.fields["r2"])
+    at1 = z3.And(rs == r1, *[a == b for a, b in zip(cs, c1)])
+    at2 = z3.And(rs == r2, *[a == b for a, b in zip(cs, c2)])
+    return z3.And(z3.Or(at1, at2), r1 > 0, r2 > 0, d2(c1, c2) > 0)
 
 
 def sfi_post(E, v, o):
@@ -424,10 +401,6 @@ GVFC_PRE3 = "from-level-3-positive-radii-and-distinct-neighbour-centres"
 
 def gvfc_setup(equal_radii=False):
     def setup(S):
-        eng = S.eng
-        base = getattr(eng, "_c14_base_registry", None) or eng.registry
-        eng._c14_base_registry = base
-        eng.registry = base if equal_radii else _Scoped(base, SFI_KEY, base[SFI_ASSUMED])
         t = sym_tree(S, "t")
         if equal_radii:
             i = z3.Int(fresh_name("i"))
@@ -557,36 +530,25 @@ def gvfc_post_hint(E, vars):
 def register(Rg: Registry):
     _make_fuv_usable_at_call_sites(Rg)
     Rg.add(f"{VOL}:_get_volume_frustum_cone.<locals>.leave", prop="C14",
-           variants={**{f"{k}-children": leave_setup(k) for k in (0, 1, 2, 3)},
-                     **{f"{k}-children/equal-radii": leave_setup(k, True) for k in (1, 2)}},
+           variants={f"{k}-children": leave_setup(k) for k in (0, 1, 2, 3)},
            requires=[("node-in-range-levels-1-to-9-and-from-level-3-positive-radii-distinct-centres", leave_pre)],
            ensures=[("volume-grows-by-the-nodes-inclusion-exclusion-share", leave_delta),
                     ("returns-the-nodes-sphere", leave_returns_sphere),
                     ("children-untouched", leave_children_kept)],
            options=dict(hints={"post/volume-grows-by-the-nodes-inclusion-exclusion-share": leave_hint}),
            notes="children lists of exactly 0, 1, 2, 3 spheres (variants), everything else symbolic (accuracy 1..9 symbolic). "
-                 "Variants `k-children`: general radii, levels >= 3 RELATIVE to the assumed taper half of the sphere/frustum "
-                 "intersection; variants `k-children/equal-radii`: cylinders, no assumed contract below level 5.")
+                 "General radii; no assumed contract below level 5 (levels >= 5 with >= 2 children: Monte-Carlo objects, assumed).")
 
-    # sphere ∩ frustum, sphere concentric with one end.  VERIFIED where the frustum does not taper away from the sphere's end
-    # (C13 proves that branch of calc_concentric_intersect_volume; here: the dispatch of _get_volume on top of it, modular).
+    # sphere ∩ frustum, sphere concentric with one end, BOTH taper directions: the dispatch of _get_volume on top of C13's verified
+    # contract of calc_concentric_intersect_volume (used modularly: its precondition is an obligation here)
     Rg.add(SFI_KEY, prop="C14",
-           variants={f"sphere-at-{e}-end/widening": sfi_setup(e, False) for e in ("c1", "c2")},
-           requires=[("concentric-with-one-end-and-no-taper-away-from-it", _sfi_pre(True))],
+           variants={f"sphere-at-{e}-end/{nm}": sfi_setup(e, tp) for e in ("c1", "c2") for nm, tp in (("widening", False), ("taper", True))},
+           requires=[("concentric-with-one-end", sfi_pre)],
            returns="real",
            ensures=[("equals-integral-of-the-smaller-profile", sfi_post)],
            lemmas=[sfi_reveal],
            options=dict(exact_tolerances=True, globals_override={"eps": 0}, hints={"post/equals-integral-of-the-smaller-profile": sfi_hint}),
-           notes="taper branch (other end thinner than the sphere's end) NOT reached deductively: see the assumed contract below")
-    # ASSUMED contract (never verified) = the same clause without the no-taper restriction.  Only the `leave` variants with
-    # general radii use it (registry scoped in leave_setup).  What is assumed beyond the verified half: the taper branch of
-    # calc_concentric_intersect_volume (random unit vector, sphere/line intersection, projection) returns V_sf; its scalar
-    # algebra is lemma `taper-branch-formulas-give-V_sf/*`, its vector geometry is covered by the bounded stand-ins C13/C14 only.
-    from pyvc.spec import Contract
-
-    Rg[SFI_ASSUMED] = Contract(SFI_KEY, prop="C14", trusted=True, returns="real",
-                               requires=[("concentric-with-one-end", _sfi_pre(False))],
-                               ensures=[("equals-integral-of-the-smaller-profile", sfi_post)])
+           notes="the closed form itself (both taper directions) is proved in contracts/C13.py")
 
     # ASSUMED contract (never verified): Monte-Carlo volume of a generic SDF object.  "Returns the measure of the set the
     # SDF handle denotes" — sampling error is ignored, so levels >= 5 with >= 2 children are proved RELATIVE to this idealisation.
@@ -603,14 +565,13 @@ def register(Rg: Registry):
     rule = Rule(gvfc_J, Ql=gvfc_Ql, modifies=[("local", "volume", "real")], leave_kind=gvfc_child_value, leave_arities=list(range(MAXK + 1)),
                 kids=(NK, KID, RANK), ghost_leave=gvfc_step_hints, fork_steps=True)
     Rg.add(f"{VOL}:_get_volume_frustum_cone", prop="C14",
-           variants={"general-radii": gvfc_setup(False), "equal-radii": gvfc_setup(True)},
+           setup=gvfc_setup(False),
            requires=[gvfc_wf(w) for w in GVFC_WF] + [("level-1-to-10", lambda E, v, o: z3.And(to_z3(v["accuracy"], "int") >= 1, to_z3(v["accuracy"], "int") <= 10)), gvfc_wf(GVFC_PRE3)],
            ghost_entry=tree_vocabulary, returns="real",
            ensures=[("volume-is-the-sum-over-all-nodes-of-the-nodes-inclusion-exclusion-share", gvfc_post)],
            options=dict(traverse_rule=rule, hints={"post/volume-is-the-sum-over-all-nodes-of-the-nodes-inclusion-exclusion-share": gvfc_post_hint}),
            notes="traverse client rule with J: volume = sum of node_share over the nodes left so far; the leave step runs the REAL closure for "
-                 "0..3 children (that no node has more is a precondition); variant general-radii: levels >= 3 relative to the assumed taper half "
-                 "of the sphere/frustum intersection; variant equal-radii (all radii equal): no assumed contract below level 5")
+                 "0..3 children (that no node has more is a precondition); general radii; no assumed contract below level 5")
 
     # ------------------------------------------------------------------ get_volume (dispatcher)
     LEVELS = {"low": 3, "middle": 5, "high": 8}
@@ -705,7 +666,8 @@ def lemmas():
     out.append(("sf-sphere-profile-is-the-smaller-one-after-the-split-point", one + [z >= m, z <= top, m < top], s1(z) <= f1(z)))
     out.append(("sf-without-taper-is-the-spec-of-C13", one + [r2 >= r1], V_sf(r1, r2, h) == C13.V_sf_widening(r1, h)))
 
-    # --- scalar algebra of the taper branch of calc_concentric_intersect_volume (backs the ASSUMED half of the intersection contract):
+    # --- scalar algebra of the taper branch of calc_concentric_intersect_volume (the division form of C13's `taper-case/*` lemmas;
+    #     the code's vector geometry that leads to these formulas is proved in contracts/C13.py):
     # with t* the larger root of the sphere/slant-line quadratic, h1 = t* h, r3 = r1 + t* (r2 - r1), the code's case formulas give V_sf
     cap = lambda r, hh: PI * hh * hh * (3 * r - hh) / 3
     frc = lambda ra, rb, hh: z3.RealVal(1) / 3 * PI * hh * (ra * ra + ra * rb + rb * rb)
